@@ -194,6 +194,8 @@ for _p in _ALL:
                      'transform': ('expand-augassign', [F, C, P, T])})
     VARIANTS.append({'id': f'{_p.lower()}-p-flip-order-comparisons-all', 'prop': _p, 'kind': 'preserve', 'edits': [],
                      'transform': ('flip-order-comparisons', [F, C, P, T])})
+    VARIANTS.append({'id': f'{_p.lower()}-p-extract-handler-tails', 'prop': _p, 'kind': 'preserve', 'edits': [],
+                     'transform': ('extract-tails',)})
     VARIANTS.append({'id': f'{_p.lower()}-p-rename-locals-tools', 'prop': _p, 'kind': 'preserve', 'edits': [],
                      'transform': ('rename', T, {'root': 'tap_root', 'src': 'template_src', 'sig': 'signature_bytes',
                                                  'left_data': 'lhs_bytes', 'right_type': 'rhs_tag'})})
